@@ -1,5 +1,5 @@
 (* Soundness of the two skeleton checkers: if `flag_safe sk` then, for EVERY oracle (which
-   validations raise, which early returns fire) and every initial flag, a run of sk ends --
+   validations raise, which WORK statements raise, which early returns fire) and every initial flag, a run of sk ends --
    by return, by raise, or by falling off the end -- with the tokenizer flag it started with;
    if `validations_first sk` then a run that raises has done no work.  Plus the generic
    consequence: calls that hand the flag back behave in any sequence as they do in isolation. *)
@@ -20,29 +20,34 @@ Lemma check_ev_sound o n f0 a a' st e :
   let '(s, st') := run_ev o n st e in
   (s = Running -> Rel f0 a' st') /\ (s <> Running -> flag st' = f0).
 Proof.
-  intros Hc HR. destruct e; destruct a as [|b']; simpl in Hc; try discriminate;
-    try (injection Hc as <-); simpl.
-  - (* Validate, clean *) destruct (o n); split; intros; try congruence; exact HR.
-  - split; intros; [exact HR|congruence].
-  - split; intros; [exact HR|congruence].
-  - split; intros; [exact HR|congruence].
-  - split; intros; [exact HR|congruence].
+  intros Hc HR. destruct e.
+  - (* Validate: only in the clean state *)
+    destruct a as [|b']; simpl in Hc; [|discriminate]. injection Hc as <-. simpl.
+    destruct (o n); split; intros; try congruence; exact HR.
+  - (* Pure *) simpl in Hc. injection Hc as <-. simpl. split; intros; [exact HR|congruence].
+  - (* Work: may raise, hence only in the clean state (or inside try/finally, see check_item) *)
+    destruct a as [|b']; simpl in Hc; [|discriminate]. injection Hc as <-. simpl.
+    destruct (o n); split; intros; try congruence; exact HR.
   - (* FlipTo in clean *)
+    destruct a as [|b']; simpl in Hc; [|discriminate]. injection Hc as <-. simpl.
     split; [intros _|congruence]. simpl in HR. unfold Rel.
     destruct (Bool.eqb (flag st) b) eqn:E; simpl.
     + right. apply eqb_prop in E. repeat split; congruence.
     + left. apply eqb_false_iff in E. repeat split; try reflexivity.
       destruct (flag st), b, f0; simpl in *; congruence.
   - (* Restore in flipped *)
+    destruct a as [|b']; simpl in Hc; [discriminate|].
     destruct (Bool.eqb b (negb b')) eqn:E; [|discriminate]. injection Hc as <-.
-    apply eqb_prop in E. split; [intros _|congruence]. simpl.
+    apply eqb_prop in E. simpl. split; [intros _|congruence]. simpl.
     destruct HR as [[Hs [Hf H0]]|[Hs [Hf H0]]]; rewrite Hs; simpl; congruence.
-  - (* EarlyRet clean *) destruct (o n); split; intros; try congruence; exact HR.
-  - (* Ret clean *) split; intros; [congruence|exact HR].
-  - split; intros; [exact HR|congruence].
-  - split; intros; [exact HR|congruence].
-  - split; intros; [exact HR|congruence].
-  - split; intros; [exact HR|congruence].
+  - (* EarlyRet clean *)
+    destruct a as [|b']; simpl in Hc; [|discriminate]. injection Hc as <-. simpl.
+    destruct (o n); split; intros; try congruence; exact HR.
+  - (* Ret clean *)
+    destruct a as [|b']; simpl in Hc; [|discriminate]. injection Hc as <-. simpl.
+    split; intros; [congruence|exact HR].
+  - (* Begin *) simpl in Hc. injection Hc as <-. simpl. split; intros; [exact HR|congruence].
+  - (* End *) simpl in Hc. injection Hc as <-. simpl. split; intros; [exact HR|congruence].
 Qed.
 
 (* neutral events never touch the flag or the saved variable *)
